@@ -56,7 +56,7 @@ func noOutcome(in ssa.Instruction, c *core.Canon) (string, bool) { return "", fa
 
 // C08: media and tables are retained exactly when they follow retained text.
 func C08(p *core.Program, r *core.Report) {
-	r.Explanation = "E4: the loop of RelevantElements.Process is extracted as a transition function of one iteration (boolean loop variables become state atoms) and compared with the documented automaton: content element -> in-content run opens; non-content text -> run closes; any other element is marked content iff the run is open; nothing else is written. E1: in ExtractContent the filters run in the order RelevantElements, LeadImageFinder, NestedElementRetainer on every path, after the last processDocument and before GetImageURLs. E2: the lead image finder promotes with a single SetIsContent(true) that is outside every loop and its scoring loop has no promotion event; candidates are only non-content images/figures before the last content text. E3: Element.SetIsContent is called only from package docfilter and TextBlock.ApplyToModel (layering). E5: every builder method that appends a table/embed/tag flushes the pending text first (shared with C02-O5), so the element list has media after the text that precedes them. E6: the element visitor offers a candidate node to every embed extractor in turn (one Extract call, on the element of a complete range over the converter's extractor list, left only at the end or when an extractor answered) and the constructor's list holds an instance of every implementation of the extractor interface - several extractors claim the same tag, so a per-tag dispatch silently loses the media of all but one (shared with C19). E7: whether a media element exists for the filters is the documented visibility decision list (shared with C04-V3). E8: the HTML view of Image/Figure/Video/Table/Embed is a serialised tree on every path (an element flagged content never renders as \"\"). E9: the number of children of a wrapper is never compared with a count of descendants (a wrapper is empty only if each child is a line break). E10: nothing touches the converter's clone before the walk except the two reviewed removal passes (shared with C18-T7). E11: the text collector of InnerText, through which the table classifier and the caption code read the text of an element, conforms to its decision list (shared with C04-V5)."
+	r.Explanation = "E4: the loop of RelevantElements.Process is extracted as a transition function of one iteration (boolean loop variables become state atoms) and compared with the documented automaton: content element -> in-content run opens; non-content text -> run closes; any other element is marked content iff the run is open; nothing else is written. E1: in ExtractContent the filters run in the order RelevantElements, LeadImageFinder, NestedElementRetainer on every path, after the last processDocument and before GetImageURLs. E2: the lead image finder promotes with a single SetIsContent(true) that is outside every loop and its scoring loop has no promotion event; candidates are only non-content images/figures before the last content text. E3: Element.SetIsContent is called only from package docfilter and TextBlock.ApplyToModel (layering). E5: every builder method that appends a table/embed/tag flushes the pending text first (shared with C02-O5), so the element list has media after the text that precedes them. E6: the element visitor offers a candidate node to every embed extractor in turn (one Extract call, on the element of a complete range over the converter's extractor list, left only at the end or when an extractor answered) and the constructor's list holds an instance of every implementation of the extractor interface - several extractors claim the same tag, so a per-tag dispatch silently loses the media of all but one (shared with C19). E7: whether a media element exists for the filters is the documented visibility decision list (shared with C04-V3). E8: the HTML view of Image/Figure/Video/Table/Embed is a serialised tree on every path (an element flagged content never renders as \"\"). E9: the number of children of a wrapper is never compared with a count of descendants (a wrapper is empty only if each child is a line break). E10: nothing touches the converter's clone before the walk except the two reviewed removal passes (shared with C18-T7). E11: the text collector of InnerText, through which the table classifier and the caption code read the text of an element, conforms to its decision list (shared with C04-V5). E12 (C09-W3 shared): in Apply the container stored as Result.Node is only created, filled by one SetInnerHTML and stored - no later pass can take retained elements out of the HTML view."
 	r.NotCovered = "the image scorers and the 13-point threshold semantics (numeric), which text blocks the classifier retains, and the correctness of the element order produced by the converter (C02)."
 
 	// ---- E4
